@@ -183,9 +183,11 @@ def write_svg(matrix, matrix_size, out, colormap, scale=1, border=None, xmldecl=
     allow_css3_colors = svgversion is not None and svgversion >= 2.0
     # Two colors are only sufficient if all dark module types share one color
     # and all light module types share one color
+    # A transparent dark color cannot be drawn onto a background: The light modules must be drawn instead
     is_multicolor = len(set(colormap.values())) > 2 \
         or len({clr for mt, clr in colormap.items() if mt >> 8}) > 1 \
-        or len({clr for mt, clr in colormap.items() if not mt >> 8}) > 1
+        or len({clr for mt, clr in colormap.items() if not mt >> 8}) > 1 \
+        or colormap[consts.TYPE_DATA_DARK] is None
     need_background = not is_multicolor and colormap[consts.TYPE_QUIET_ZONE] is not None and not draw_transparent
     need_svg_group = scale != 1 and (need_background or is_multicolor)
     if is_multicolor:
